@@ -16,7 +16,29 @@ REGS = ["pc", "sp", "r0", "r1", "r5", "r15", "r16", "r31", "r32", "a", "x", "y",
         "n", "v", "psw", "acc", "w", "foo", "r99", "abcdefghijklmnop", ""]
 
 
-TOP = re.compile(r"(?i)(0xffffff[0-9a-f]{2}|ffffff[0-9a-f]{2}h|42949672\d\d|-\d{1,3}\b)")
+NUMTOK = re.compile(r"(?i)(?<![0-9a-z_])(0x[0-9a-f]+|[0-9][0-9a-f]*h|[0-9]+)(?![0-9a-z_])")
+TOP_LIMIT = 0xffffff00 // 8          # any CPU: value * bytes_per_address (<= 8) stays below the top 256 bytes
+
+
+def has_top(text):
+    """does the text name an address that (scaled by up to 8 bytes per address) reaches the top 256 bytes?"""
+    for m in NUMTOK.finditer(text):
+        t = m.group(1).lower()
+        try:
+            v = int(t[2:], 16) if t.startswith("0x") else (int(t[:-1], 16) if t.endswith("h") else int(t))
+        except ValueError:
+            continue
+        if (v & 0xffffffff) >= TOP_LIMIT:
+            return True
+    return False
+
+
+class _Top:
+    def search(self, t):
+        return has_top(t)
+
+
+TOP = _Top()
 TEN = list(range(10))
 
 
@@ -33,8 +55,8 @@ def number(draw):
     return v
 
 
-def spell(draw, v):
-    k = draw(st.sampled_from(["dec", "hex", "hex", "h", "neg"]))
+def spell(draw, v, neg=False):
+    k = draw(st.sampled_from(["dec", "hex", "hex", "h"] + (["neg"] if neg else [])))
     if k == "dec":
         return str(v)
     if k == "hex":
@@ -93,7 +115,7 @@ def command(draw):
         return ["%s %s" % (k, r)], span
     if k in ("write", "write16", "write32"):
         a = draw(number())
-        vals = [spell(draw, draw(number())) for _ in range(draw(st.integers(0, 5)))]
+        vals = [spell(draw, draw(number()), True) for _ in range(draw(st.integers(0, 5)))]
         return ["%s %s %s" % (k, spell(draw, a), " ".join(vals))], 0
     if k == "set":
         return ["set %s%s%s" % (draw(st.sampled_from(REGS)), draw(st.sampled_from(["=", " = ", "", " "])),
@@ -188,6 +210,26 @@ def session(draw):
         excluded += got[2] if len(got) > 2 else 0
         cmds.extend(lines)
         total += span
+    # known finding C17-disasm-range-top: a session that touches the top of the address space (an option value, a
+    # write, an image base) does not use whole-image or open-ended disassembly
+    if base >= TOP_LIMIT or any(has_top(x) for x in args + cmds):
+        keep = []
+        i = 0
+        while i < len(args):
+            if args[i] == "-disasm":
+                excluded += 1
+                mode_disasm = False
+            elif args[i] == "-disasm_range" and i + 1 < len(args):
+                excluded += 1
+                mode_disasm = False
+                i += 1
+            else:
+                keep.append(args[i])
+            i += 1
+        args = keep
+        n0 = len(cmds)
+        cmds = [c for c in cmds if not c.startswith("disasm")]
+        excluded += n0 - len(cmds)
     return dict(cpu=cpu, args=args, file_kind=file_kind, data=data.hex(), base=base, cmds=cmds, span=total,
                 disasm=mode_disasm, excluded=excluded)
 
@@ -293,7 +335,7 @@ def judge(case, rc, out, err, to):
                 + " | " + err[-600:])
     if rc is None or rc < 0:
         return ("signal", "naken_util died from a signal (%s)" % rc, err[-300:])
-    if rc not in (0, 1):
+    if rc not in (0, 1) and "-break_io" not in case["args"]:
         return ("status", "exit status %s" % rc, out[-300:])
     if LAST.get("over") or len(out) > budget(case):
         return ("output", "more than %d bytes of output for commands that ask for about %d address units" % (budget(case), case["span"]),
@@ -360,7 +402,7 @@ def part(s, tier, seed, shard):
                 return
         raise Violation(dict(engine="c17s", kind="session_" + kind, what=what, observed=obs, **case))
 
-    hyp_run(test, session(), 30 if tier == "quick" else 700, shard_seed(seed, shard, "c17s"), s)
+    hyp_run(test, session(), 150 if tier == "quick" else 700, shard_seed(seed, shard, "c17s"), s)
 
 
 def replay(payload):
